@@ -25,7 +25,8 @@ def main(tier, seed, replay):
         return envcheck.finish_env(ck, "C10", cases, c01.RULE)
     kcases = envcheck.run_harness(ck, "kms", [["-seed", str(seed), "-n", "600" if tier == "quick" else "4000"],
                                               ["-seed", str(seed + 7), "-n", "300" if tier == "quick" else "2000", "-x", "partial"],
-                                              ["-seed", str(seed + 9), "-n", "300" if tier == "quick" else "2000", "-x", "cancel"]])
+                                              ["-seed", str(seed + 9), "-n", "300" if tier == "quick" else "2000", "-x", "cancel"],
+                                              ["-seed", str(seed + 11), "-n", "120" if tier == "quick" else "1000", "-x", "oversize"]])
     if kcases is None:
         return ck.finish()
     bad = [c for c in kcases if any("not wiped" in v for v in c.get("viol") or [])]
@@ -33,6 +34,7 @@ def main(tier, seed, replay):
     ck.cov["kms_cells_with_unwrap"] = sum(1 for c in kcases if c.get("attempts"))
     ck.cov["kms_cells_with_incomplete_generate_response"] = sum(1 for c in kcases if c.get("partial"))
     ck.cov["kms_cells_with_context_ending_during_a_call"] = sum(1 for c in kcases if c.get("cancel"))
+    ck.cov["kms_cells_with_data_keys_of_other_lengths"] = sum(1 for c in kcases if c.get("keylen"))
     if bad:
         ck.violation(ck.replay_file("kms", {"what": bad[0]["viol"], "Case": bad[0]}))
     # secure-memory release failures: WithBytesFunc hands back the callback's result TOGETHER WITH an error (what protectedmemory and memguard
